@@ -27,10 +27,14 @@ func checkTimeFoldExact(p *Program, r *Result, rule string) {
 	}{{"MessageStartTime", true}, {"MessageEndTime", false}} {
 		construct := "Statistics." + side.field + " is the exact " + map[bool]string{true: "minimum", false: "maximum"}[side.min] + " of the log times written"
 		var stores []*ssa.Store
+		foldDir := map[*ssa.Store]int{} // store of min(running, t): -1, of max(running, t): +1
 		for _, rf := range regionOf(p, wm, 3) {
 			for _, st := range fieldStores(rf, "Statistics", side.field) {
 				if isMessageLogTime(p, st.Val) {
 					stores = append(stores, st)
+				} else if dir, ok := minMaxFold(p, st.Val, side.field); ok {
+					stores = append(stores, st)
+					foldDir[st] = dir
 				}
 			}
 		}
@@ -39,64 +43,63 @@ func checkTimeFoldExact(p *Program, r *Result, rule string) {
 			continue
 		}
 		bad := ""
-		for _, st := range stores {
-			// atoms: comparisons of the log time with the running value, and of the message count with a constant
-			type env struct {
-				rel   int  // -1: t < v, 0: t == v, +1: t > v
-				first bool // MessageCount == 1 (after the increment)
+		// atoms: comparisons of the log time with the running value, and of the message count with a constant
+		type env struct {
+			rel   int  // -1: t < v, 0: t == v, +1: t > v
+			first bool // MessageCount == 1 (after the increment)
+		}
+		evalCond := func(c ssa.Value, e env) (val, ok bool) {
+			neg := false
+			for {
+				u, isU := c.(*ssa.UnOp)
+				if !isU || u.Op != token.NOT {
+					break
+				}
+				c, neg = u.X, !neg
 			}
-			evalCond := func(c ssa.Value, e env) (val, ok bool) {
-				neg := false
-				for {
-					u, isU := c.(*ssa.UnOp)
-					if !isU || u.Op != token.NOT {
-						break
-					}
-					c, neg = u.X, !neg
-				}
-				b, isB := c.(*ssa.BinOp)
-				if !isB {
-					return false, false
-				}
-				x, y := stripConv(b.X), stripConv(b.Y)
-				var res bool
-				switch {
-				case isMessageLogTime(p, x) && loadOfField(y, "Statistics", side.field):
-					res = constant.Compare(constant.MakeInt64(int64(e.rel)), b.Op, constant.MakeInt64(0))
-				case isMessageLogTime(p, y) && loadOfField(x, "Statistics", side.field):
-					res = constant.Compare(constant.MakeInt64(0), b.Op, constant.MakeInt64(int64(e.rel)))
-				case loadOfField(x, "Statistics", "MessageCount"):
-					k, isK := y.(*ssa.Const)
-					if !isK || k.Value == nil {
-						return false, false
-					}
-					n := int64(2)
-					if e.first {
-						n = 1
-					}
-					res = constant.Compare(constant.MakeInt64(n), b.Op, constant.ToInt(k.Value))
-				case loadOfField(y, "Statistics", "MessageCount"):
-					k, isK := x.(*ssa.Const)
-					if !isK || k.Value == nil {
-						return false, false
-					}
-					n := int64(2)
-					if e.first {
-						n = 1
-					}
-					res = constant.Compare(constant.ToInt(k.Value), b.Op, constant.MakeInt64(n))
-				default:
-					return false, false
-				}
-				switch b.Op {
-				case token.LSS, token.LEQ, token.GTR, token.GEQ, token.EQL, token.NEQ:
-				default:
-					return false, false
-				}
-				return res != neg, true
+			b, isB := c.(*ssa.BinOp)
+			if !isB {
+				return false, false
 			}
-			// the decision region: blocks from which the store block is reachable through decidable conditions only,
-			// entered at the closest dominator whose own condition is decidable and whose dominator's is not
+			x, y := stripConv(b.X), stripConv(b.Y)
+			var res bool
+			switch {
+			case isMessageLogTime(p, x) && loadOfField(y, "Statistics", side.field):
+				res = constant.Compare(constant.MakeInt64(int64(e.rel)), b.Op, constant.MakeInt64(0))
+			case isMessageLogTime(p, y) && loadOfField(x, "Statistics", side.field):
+				res = constant.Compare(constant.MakeInt64(0), b.Op, constant.MakeInt64(int64(e.rel)))
+			case loadOfField(x, "Statistics", "MessageCount"):
+				k, isK := y.(*ssa.Const)
+				if !isK || k.Value == nil {
+					return false, false
+				}
+				n := int64(2)
+				if e.first {
+					n = 1
+				}
+				res = constant.Compare(constant.MakeInt64(n), b.Op, constant.ToInt(k.Value))
+			case loadOfField(y, "Statistics", "MessageCount"):
+				k, isK := x.(*ssa.Const)
+				if !isK || k.Value == nil {
+					return false, false
+				}
+				n := int64(2)
+				if e.first {
+					n = 1
+				}
+				res = constant.Compare(constant.ToInt(k.Value), b.Op, constant.MakeInt64(n))
+			default:
+				return false, false
+			}
+			switch b.Op {
+			case token.LSS, token.LEQ, token.GTR, token.GEQ, token.EQL, token.NEQ:
+			default:
+				return false, false
+			}
+			return res != neg, true
+		}
+		// does the store execute in case e? (walk from the closest decidable dominator; an unguarded store always does)
+		executes := func(st *ssa.Store, e env) bool {
 			root := st.Block()
 			for d := st.Block().Idom(); d != nil; d = d.Idom() {
 				iff, ok := d.Instrs[len(d.Instrs)-1].(*ssa.If)
@@ -108,48 +111,60 @@ func checkTimeFoldExact(p *Program, r *Result, rule string) {
 				}
 				root = d
 			}
-			if root == st.Block() {
-				bad = "the store of the log time into Statistics." + side.field + " is not guarded by a comparison with the running value"
-				continue
-			}
-			for _, e := range []env{{-1, true}, {0, true}, {1, true}, {-1, false}, {0, false}, {1, false}} {
-				b := root
-				reached := false
-				for steps := 0; steps < 20; steps++ {
-					if b == st.Block() {
-						reached = true
-						break
-					}
-					iff, ok := b.Instrs[len(b.Instrs)-1].(*ssa.If)
-					if !ok {
-						break
-					}
-					v, ok := evalCond(iff.Cond, e)
-					if !ok {
-						break
-					}
-					if v {
-						b = b.Succs[0]
-					} else {
-						b = b.Succs[1]
-					}
+			b := root
+			for steps := 0; steps < 20; steps++ {
+				if b == st.Block() {
+					return true
 				}
-				var must, mustNot bool
-				if side.min {
-					must = e.rel < 0 || e.first
-					mustNot = e.rel > 0 && !e.first
+				iff, ok := b.Instrs[len(b.Instrs)-1].(*ssa.If)
+				if !ok {
+					return false
+				}
+				v, ok := evalCond(iff.Cond, e)
+				if !ok {
+					return false
+				}
+				if v {
+					b = b.Succs[0]
 				} else {
-					must = e.rel > 0
-					mustNot = e.rel < 0
+					b = b.Succs[1]
 				}
-				relName := map[int]string{-1: "below", 0: "equal to", 1: "above"}[e.rel]
-				who := map[bool]string{true: "the first message", false: "a later message"}[e.first]
-				if must && !reached {
-					bad = "for " + who + " with a log time " + relName + " the running value the statistics are not updated"
+			}
+			return false
+		}
+		for _, e := range []env{{-1, true}, {0, true}, {1, true}, {-1, false}, {0, false}, {1, false}} {
+			// the running value changes to t in this case iff a plain store of t executes, or a min/max fold executes in
+			// a case where t is the smaller / larger of the two
+			changed := false
+			for _, st := range stores {
+				if !executes(st, e) {
+					continue
 				}
-				if mustNot && reached {
-					bad = "for " + who + " with a log time " + relName + " the running value the statistics are overwritten"
+				if dir, isFold := foldDir[st]; isFold {
+					if (dir < 0 && e.rel < 0) || (dir > 0 && e.rel > 0) {
+						changed = true
+					}
+				} else if e.rel != 0 {
+					changed = true
+				} else {
+					changed = changed || false // storing an equal value changes nothing
 				}
+			}
+			var must, mustNot bool
+			if side.min {
+				must = e.rel < 0 || (e.first && e.rel != 0)
+				mustNot = e.rel > 0 && !e.first
+			} else {
+				must = e.rel > 0
+				mustNot = e.rel < 0
+			}
+			relName := map[int]string{-1: "below", 0: "equal to", 1: "above"}[e.rel]
+			who := map[bool]string{true: "the first message", false: "a later message"}[e.first]
+			if must && !changed {
+				bad = "for " + who + " with a log time " + relName + " the running value the statistics are not updated"
+			}
+			if mustNot && changed {
+				bad = "for " + who + " with a log time " + relName + " the running value the statistics are overwritten"
 			}
 		}
 		if bad == "" {
@@ -158,4 +173,24 @@ func checkTimeFoldExact(p *Program, r *Result, rule string) {
 			r.violated(rule, funcName(wm), construct, p.pos(stores[0].Pos()), bad+"; Statistics."+side.field+" is then not the "+map[bool]string{true: "earliest", false: "latest"}[side.min]+" log time in the file")
 		}
 	}
+}
+
+// minMaxFold: v is the builtin min or max of the running Statistics.<field> and the message's log time.
+func minMaxFold(p *Program, v ssa.Value, field string) (dir int, ok bool) {
+	c, isCall := stripConv(v).(*ssa.Call)
+	if !isCall {
+		return 0, false
+	}
+	b, isB := c.Call.Value.(*ssa.Builtin)
+	if !isB || (b.Name() != "min" && b.Name() != "max") || len(c.Call.Args) != 2 {
+		return 0, false
+	}
+	a0, a1 := stripConv(c.Call.Args[0]), stripConv(c.Call.Args[1])
+	if !((loadOfField(a0, "Statistics", field) && isMessageLogTime(p, a1)) || (loadOfField(a1, "Statistics", field) && isMessageLogTime(p, a0))) {
+		return 0, false
+	}
+	if b.Name() == "min" {
+		return -1, true
+	}
+	return 1, true
 }
